@@ -1,11 +1,269 @@
 /-
 C16 — resizing and padding follow the named boundary rule; cropping undoes extension.
-Property theorems only (model: `Model/Resize.lean`, slices: `Gen/PadSlices.lean`).
+Property theorems only.  Model: `Model/Resize.lean` (the statements of `resize_array`,
+`_apply_padding`, `_assign_intersection` one axis at a time, composed along the axes); the
+per-mode slice arithmetic is the GENERATED `Gen/PadSlices.lean`, so every theorem below is
+re-checked against what `/repo/odl/util/numerics.py` says on every run.
+All sizes, offsets and array contents are universally quantified; scalars range over an
+arbitrary commutative ring (ℤ, ℚ, ℝ, ℂ, …).
 -/
-import OdlModel.Model.Resize
+import OdlModel.Lemmas.ResizeND
+import Mathlib.Tactic.FieldSimp
 
+set_option linter.unusedVariables false
+set_option linter.unusedTactic false
+set_option linter.unreachableTactic false
+set_option linter.unnecessarySeqFocus false
+
+namespace OdlModel.C16
 open OdlModel.Resize
 
-/-- placeholder while the proofs are being built -/
-theorem C16.full_slice (n : Nat) : (pySlice .full n).count = n := by
-  simp [pySlice, SliceSpec.full]
+/-- The documented requirement on a padded axis of original length `n`
+(docstring of `resize_array`). -/
+def PadOK (mode : Mode) (n padL padR : Nat) : Prop :=
+  match mode with
+  | .constant => True
+  | .periodic => padL ≤ n ∧ padR ≤ n
+  | .symmetric => padL < n ∧ padR < n
+  | .order0 => 1 ≤ n
+  | .order1 => 2 ≤ n
+
+/-- `(n, m, off)` is an admissible resize of one axis from length `n` to length `m`:
+the block fits, and if the axis grows the padding lengths respect the mode's limit. -/
+def Admissible (mode : Mode) (n m off : Nat) : Prop :=
+  off + min n m ≤ max n m ∧ (n < m → PadOK mode n off (m - n - off))
+
+/-- NumPy's padding (`constant`, `wrap`, `reflect`, `edge`) and, for `order1`, linear
+extrapolation — the reference the property names. -/
+def npPad {K : Type} [CommRing K] (mode : Mode) (n off : Nat) (c : K) (x : Nat → K) : Nat → K :=
+  match mode with
+  | .constant => npConstant n off c x
+  | .periodic => npWrap n off x
+  | .symmetric => npReflect n off x
+  | .order0 => npEdge n off x
+  | .order1 => linExtrap n off x
+
+/-- Per-axis admissibility of an n-d resize. -/
+def AdmissibleND (mode : Mode) : List Nat → List Nat → List Nat → Prop
+  | n :: sIn, m :: sOut, off :: offs => Admissible mode n m off ∧ AdmissibleND mode sIn sOut offs
+  | [], [], [] => True
+  | _, _, _ => False
+
+end OdlModel.C16
+
+open OdlModel.C16 OdlModel.Resize Finset
+
+section
+variable {K : Type} [CommRing K] [DecidableEq K]
+
+/-- The explicit `raise ValueError` branches are exactly the documented limits: the forward
+call is accepted iff the configuration is admissible, and the adjoint call (with
+`pad_const = 0`) is accepted for exactly the same configurations. -/
+theorem C16.guards_are_documented_limits (mode : Mode) (n m off : Nat) (c : K) :
+    (check mode .forward n m off c = none ↔ Admissible mode n m off) ∧
+    (check mode .adjoint m n off (0 : K) = none ↔ Admissible mode n m off) := by
+  constructor <;>
+  · cases mode <;>
+    simp only [check, paddingGuards, Admissible, PadOK, reduceCtorEq, false_and, true_and,
+      and_false, ne_eq, not_true_eq_false, ↓reduceIte, gt_iff_lt, ge_iff_le] <;>
+    split_ifs <;> simp <;> omega
+
+/-- Constant padding with a non-zero constant is not linear: the adjoint direction refuses it
+(`pad_const must be 0 for 'adjoint' direction`), for all sizes. -/
+theorem C16.adjoint_needs_zero_padconst (n m off : Nat) (c : K) (hc : c ≠ 0) (y : Nat → K) :
+    resize1d .constant .adjoint m n off c y = .error .padConstAdjoint := by
+  simp [resize1d, check, hc]
+
+omit [DecidableEq K] in
+private theorem admissible_fits {mode : Mode} {n m off : Nat} (h : Admissible mode n m off)
+    (hnm : n < m) : off + n ≤ m := by
+  have := h.1; omega
+
+/-- A successful call returns `resizeCore`. -/
+private theorem ok_iff (mode : Mode) (dir : Dir) (n m off : Nat) (c : K) (x r : Nat → K) :
+    resize1d mode dir n m off c x = .ok r ↔
+      check mode dir n m off c = none ∧ r = resizeCore mode dir n m off c x := by
+  unfold resize1d
+  cases h : check mode dir n m off c <;> simp [eq_comm]
+
+/-- One growing axis, forward direction, closed form for every mode:
+`constant/periodic/symmetric/order0` read the input at NumPy's `constant/wrap/reflect/edge`
+index, `order1` extrapolates linearly. -/
+private theorem core_fwd_grow (mode : Mode) (n m off : Nat) (c : K) (x : Nat → K) (hnm : n < m)
+    (h : Admissible mode n m off) (i : Nat) (hi : i < m) :
+    resizeCore mode .forward n m off c x i = npPad mode n off c x i := by
+  have hoff := admissible_fits h hnm
+  have hp := h.2 hnm
+  cases mode <;> simp only [PadOK] at hp <;> simp only [npPad]
+  · exact core_constant_fwd n m off c x hnm hoff i
+  · rw [core_symmetric_fwd n m off c x hnm hoff hp.1 hp.2 i hi]
+    simp only [npReflect]
+    rw [reflect_eq_src n off i (by omega) hp.1 (by omega)]
+  · rw [core_periodic_fwd n m off c x hnm hoff hp.1 hp.2 i hi]
+    simp only [npWrap]
+    rw [wrap_eq_src n off i (by omega) hp.1 (by omega)]
+  · rw [core_order0_fwd n m off c x hnm hoff hp i hi]
+    simp only [npEdge, srcEdge, ge_iff_le]
+  · exact core_order1_fwd n m off c x hnm hoff hp i hi
+
+/-- **Padding equals NumPy's.**  For every pad mode, every original length `n`, new length
+`m > n`, offset and array content for which the call is admissible, `resize_array` succeeds
+and its result is, entry for entry, `np.pad` with the equivalent mode (`constant`, `wrap`,
+`reflect` = symmetric without repeating the edge, `edge`), resp. the linear extrapolation
+through the two outermost samples for `order1`. -/
+theorem C16.pad_eq_nppad (mode : Mode) (n m off : Nat) (c : K) (x : Nat → K) (hnm : n < m)
+    (h : Admissible mode n m off) :
+    ∃ r, resize1d mode .forward n m off c x = .ok r ∧ ∀ i < m, r i = npPad mode n off c x i := by
+  refine ⟨_, (ok_iff ..).2 ⟨((C16.guards_are_documented_limits mode n m off c).1).2 h, rfl⟩, ?_⟩
+  intro i hi
+  exact core_fwd_grow mode n m off c x hnm h i hi
+
+/-- **The overlapping block is copied unchanged**, in every mode, for growing, shrinking and
+equal lengths and every offset the call accepts: extension puts `x` at `[off, off + n)`,
+restriction returns `x[off : off + m]`. -/
+theorem C16.resize_intersection (mode : Mode) (n m off : Nat) (c : K) (x r : Nat → K)
+    (hr : resize1d mode .forward n m off c x = .ok r) :
+    (n ≤ m → ∀ j < n, r (off + j) = x j) ∧ (m ≤ n → ∀ i < m, r i = x (off + i)) := by
+  obtain ⟨hc, rfl⟩ := (ok_iff ..).1 hr
+  have hadm := ((C16.guards_are_documented_limits mode n m off c).1).1 hc
+  constructor
+  · intro hnm j hj
+    rcases Nat.lt_or_eq_of_le hnm with hlt | rfl
+    · have hoff := admissible_fits hadm hlt
+      have hp := hadm.2 hlt
+      rw [core_fwd_grow mode n m off c x hlt hadm (off + j) (by omega)]
+      cases mode <;> simp only [PadOK] at hp <;> simp only [npPad]
+      · simp only [npConstant]; rw [if_pos (by omega), Nat.add_sub_cancel_left]
+      · simp only [npReflect]
+        rw [reflect_eq_src n off (off + j) (by omega) hp.1 (by omega)]
+        simp only [srcSymmetric]; split_ifs <;> first | omega | (congr 1 <;> omega)
+      · simp only [npWrap]
+        rw [wrap_eq_src n off (off + j) (by omega) hp.1 (by omega)]
+        simp only [srcPeriodic]; split_ifs <;> first | omega | (congr 1 <;> omega)
+      · simp only [npEdge]; split_ifs <;> first | omega | (congr 1 <;> omega)
+      · simp only [linExtrap]; split_ifs <;> first | omega | (congr 1 <;> omega)
+    · have : off = 0 := by have := hadm.1; omega
+      subst this
+      rw [core_fwd_crop mode n n 0 c x (le_refl _) (by omega) (0 + j) (by omega)]
+      congr 1; omega
+  · intro hmn i hi
+    have := hadm.1
+    exact core_fwd_crop mode n m off c x hmn (by omega) i hi
+
+/-- **Cropping undoes extension.**  Extending `x` from `n` to `m ≥ n` entries (any mode, any
+accepted offset) and then resizing back to `n` entries with the same offset — in any mode,
+with any padding constant — returns `x`. -/
+theorem C16.crop_extend_id (mode mode' : Mode) (n m off : Nat) (c c' : K) (x r : Nat → K)
+    (hnm : n ≤ m) (hr : resize1d mode .forward n m off c x = .ok r) :
+    ∃ r', resize1d mode' .forward m n off c' r = .ok r' ∧ ∀ j < n, r' j = x j := by
+  have hint := (C16.resize_intersection mode n m off c x r hr).1 hnm
+  obtain ⟨hc, -⟩ := (ok_iff ..).1 hr
+  have hadm := ((C16.guards_are_documented_limits mode n m off c).1).1 hc
+  have hfit : off + n ≤ m := by have := hadm.1; omega
+  have hadm' : Admissible mode' m n off := ⟨by omega, fun h => by omega⟩
+  refine ⟨_, (ok_iff ..).2 ⟨((C16.guards_are_documented_limits mode' m n off c').1).2 hadm', rfl⟩,
+    ?_⟩
+  intro j hj
+  rw [core_fwd_crop mode' m n off c' r hnm hfit j hj]
+  exact hint j hj
+
+/-- One axis: forward `n → m` and adjoint `m → n` are transposes, all modes and sizes. -/
+private theorem core_transpose (mode : Mode) (n m off : Nat) (h : Admissible mode n m off) :
+    TransposePair n m (resizeCore mode .forward n m off (0 : K))
+      (resizeCore mode .adjoint m n off (0 : K)) := by
+  intro x y
+  by_cases hnm : n < m
+  · have hoff := admissible_fits h hnm
+    have hp := h.2 hnm
+    cases mode <;> simp only [PadOK] at hp
+    · exact constant_transpose n m off x y hnm hoff
+    · exact symmetric_transpose n m off x y hnm hoff hp.1 hp.2
+    · exact periodic_transpose n m off x y hnm hoff hp.1 hp.2
+    · exact order0_transpose n m off x y hnm hoff hp
+    · exact order1_transpose n m off x y hnm hoff hp
+  · have := h.1
+    exact crop_transpose mode n m off x y (by omega) (by omega)
+
+/-- **Forward and adjoint are transposes of each other** (one axis).  For every linear mode
+(`pad_const = 0`), all lengths `n`, `m` (growing: padding vs. accumulation of the outer parts
+into the inner ones — sums for `order0`, zeroth and first moments for `order1`; shrinking:
+cropping vs. zero padding), every admissible offset and all contents:
+both calls succeed and `Σ_{i<m} y_i (R x)_i = Σ_{j<n} x_j (Rᵀ y)_j`. -/
+theorem C16.adjoint_transpose (mode : Mode) (n m off : Nat) (x y : Nat → K)
+    (h : Admissible mode n m off) :
+    ∃ r rt, resize1d mode .forward n m off 0 x = .ok r ∧
+      resize1d mode .adjoint m n off 0 y = .ok rt ∧
+      ∑ i ∈ range m, y i * r i = ∑ j ∈ range n, x j * rt j := by
+  have hg := C16.guards_are_documented_limits (K := K) mode n m off 0
+  exact ⟨_, _, (ok_iff ..).2 ⟨hg.1.2 h, rfl⟩, (ok_iff ..).2 ⟨hg.2.2 h, rfl⟩,
+    core_transpose mode n m off h x y⟩
+
+omit [DecidableEq K] in
+private theorem admND_lengths {mode : Mode} : ∀ {sIn sOut offs : List Nat},
+    AdmissibleND mode sIn sOut offs → sIn.length = sOut.length ∧ sIn.length = offs.length
+  | [], [], [], _ => ⟨rfl, rfl⟩
+  | _ :: _, _ :: _, _ :: _, h => by
+    have := admND_lengths h.2
+    simp only [List.length_cons]; omega
+  | [], [], _ :: _, h => by simp [AdmissibleND] at h
+  | [], _ :: _, _, h => by simp [AdmissibleND] at h
+  | _ :: _, [], _, h => by simp [AdmissibleND] at h
+  | _ :: _, _ :: _, [], h => by simp [AdmissibleND] at h
+
+private theorem axes_transpose (mode : Mode) :
+    ∀ (sIn sOut offs pre : List Nat), AdmissibleND mode sIn sOut offs →
+      TransposePairND (pre ++ sIn) (pre ++ sOut)
+        (resizeAxes mode .forward (0 : K) pre.length sIn sOut offs)
+        (resizeAxesRev mode .adjoint (0 : K) pre.length sOut sIn offs)
+  | [], [], [], pre, _ => by
+    intro X Y
+    simp only [resizeAxes, resizeAxesRev]
+    congr 1; funext idx; ring
+  | n :: sIn, m :: sOut, off :: offs, pre, h => by
+    have ih := axes_transpose mode sIn sOut offs (pre ++ [m]) h.2
+    have h1 : TransposePairND (pre ++ n :: sIn) (pre ++ m :: sIn)
+        (alongAxis pre.length (resizeCore mode .forward n m off (0 : K)))
+        (alongAxis pre.length (resizeCore mode .adjoint m n off (0 : K))) := by
+      intro X Y
+      exact alongAxis_transpose n m _ _ (core_transpose mode n m off h.1) pre sIn X Y
+    simp only [List.append_assoc, List.cons_append, List.nil_append, List.length_append,
+      List.length_cons, List.length_nil, Nat.zero_add] at ih
+    have := TransposePairND.comp h1 ih
+    intro X Y
+    simpa only [resizeAxes, resizeAxesRev, Function.comp] using this X Y
+  | [], [], _ :: _, _, h => by simp [AdmissibleND] at h
+  | [], _ :: _, _, _, h => by simp [AdmissibleND] at h
+  | _ :: _, [], _, _, h => by simp [AdmissibleND] at h
+  | _ :: _, _ :: _, [], _, h => by simp [AdmissibleND] at h
+
+/-- **Forward and adjoint are transposes, any number of axes**, growing in some axes while
+shrinking in others: with the one-axis maps composed along the axes (forward: axis 0 first,
+adjoint: last axis first),
+`Σ_{idx ∈ box(sOut)} Y_idx (R X)_idx = Σ_{idx ∈ box(sIn)} X_idx (Rᵀ Y)_idx`
+for all admissible shapes/offsets and all contents.  (That the code's adjoint, which also
+runs axis 0 first, gives the same array is part of the correspondence run, not of this
+theorem: one-axis maps along different axes commute.) -/
+theorem C16.adjoint_transpose_nd (mode : Mode) (sIn sOut offs : List Nat)
+    (h : AdmissibleND mode sIn sOut offs) (X Y : List Nat → K) :
+    sumBox sOut (fun idx => Y idx * resizeAxes mode .forward (0 : K) 0 sIn sOut offs X idx) =
+      sumBox sIn (fun idx => X idx * resizeAxesRev mode .adjoint (0 : K) 0 sOut sIn offs Y idx) :=
+  axes_transpose mode sIn sOut offs [] h X Y
+
+/-- The n-d call is accepted iff every axis is admissible (given consistent lengths). -/
+theorem C16.nd_accepts_iff (mode : Mode) (c : K) :
+    ∀ (sIn sOut offs : List Nat), sIn.length = sOut.length → sIn.length = offs.length →
+      (checkND mode .forward c sIn sOut offs = none ↔ AdmissibleND mode sIn sOut offs)
+  | [], [], [], _, _ => by simp [checkND, AdmissibleND]
+  | n :: sIn, m :: sOut, off :: offs, h1, h2 => by
+    have ih := C16.nd_accepts_iff mode c sIn sOut offs (by simpa using h1) (by simpa using h2)
+    have hg := (C16.guards_are_documented_limits mode n m off c).1
+    simp only [checkND, AdmissibleND]
+    cases hc : check mode .forward n m off c with
+    | none => simp [← hg, hc, ih]
+    | some e => simp [← hg, hc]
+  | [], _ :: _, _, h1, _ => by simp at h1
+  | _ :: _, [], _, h1, _ => by simp at h1
+  | [], [], _ :: _, _, h2 => by simp at h2
+  | _ :: _, _ :: _, [], _, h2 => by simp at h2
+
+end
